@@ -12,7 +12,8 @@ from oracles import typing_ref  # noqa: E402
 typing_ref.templates()
 N = envint("VF_N", 4)
 NMIN = envint("VF_NMIN", 0)
-PRE = envstr("VF_PRE", "")   # concrete prefix: the string under test is PRE + t
+PRE = envstr("VF_PRE", "")   # concrete prefix / suffix: the string under test is PRE + t + SUF
+SUF = envstr("VF_SUF", "")
 ROT = envint("VF_ROT", 1)
 
 
@@ -21,7 +22,7 @@ def _same(a, b) -> bool:
 
 
 def _typed(t: str):
-    sid = Sid(PRE + t)
+    sid = Sid(PRE + t + SUF)
     return sid if sid else None
 
 
@@ -99,7 +100,7 @@ def query(t: str) -> bool:
     pre: ':' not in t and _query_safe(t)
     post: _
     """
-    s = PRE + t
+    s = PRE + t + SUF
     sid = Sid(s)
     if not sid:
         return True
@@ -141,7 +142,7 @@ def repr_form(t: str) -> bool:
     pre: '?' not in t and ':' not in t
     post: _
     """
-    s = PRE + t
+    s = PRE + t + SUF
     sid = Sid(s)
     if not sid:
         return True
@@ -155,7 +156,7 @@ def reach_forms(t: str) -> bool:
     pre: '?' not in t and ':' not in t
     post: _
     """
-    s = PRE + t
+    s = PRE + t + SUF
     sid = Sid(s)
     return not (bool(sid) and len(sid.fields) >= 3 and Sid(fields=dict(reversed(list(sid.fields.items())))) == sid)
 
